@@ -41,6 +41,25 @@ LEADING_ZERO_PAIRS = [
 ]
 
 
+# BALTECH's published public keys per selector (DER, P-256), pinned here: "the published key for that selector" is a
+# fact outside the code; a block without explicit recipient must be addressed to THESE keys
+PUBLISHED_KEYS = {
+    0: "3059301306072a8648ce3d020106082a8648ce3d03010703420004057b565d976a3306e8bd094a4671138198707d0bb67c88a45e8f375dcb1416c9519884e2109a02792072af237911a612eb16213836e90fdd421b479ebd98158e",
+    1: "3059301306072a8648ce3d020106082a8648ce3d03010703420004d7b1b5cbd0587ae22e91aee229b9534a920c905f58513cb4391f8c3f5a1b464ccc05917e5c59c3ae3e1197992b2fbb24f34238d1e4bbc62dc0dbc8f36903e92b",
+    2: "3059301306072a8648ce3d020106082a8648ce3d030107034200040cd731ed3730e53f7244ee71d8d54f5300885ff645ec8fd27fa3d9d1c4629faf6536a1f5b46f0c7ca923ee284c115b9d6514edef9aa1fdbf1f54030b49aef8a6",
+    3: "3059301306072a8648ce3d020106082a8648ce3d03010703420004b6bc3d318417ae9099a228c29a0de85ac053eab5b3aa508bf4a438bf15ff8b551a04004051801a3d08a6055715c9dff38fd2efaa311c8154bd9a302597c86053",
+}
+# ephemeral scalars whose public point X||Y has a special byte pattern: contains 00 04 (the bytes that end the fixed
+# DER header), X or Y with a leading zero byte, ends with 04 (found offline with the library's own arithmetic)
+PATTERN_EPHEMERALS = [
+    0x9387b68357834e8b1feb109370442bc36794985214730728c4dbc51678485f91,
+    0x2a8d9e2aef6d465dc56c8b039bd444c235514aa6ee92f8fbe885b05e05dcb43b,
+    0x0fd1ac5589935546f0535fd27a2d8d14fc863e97b88d6f73e43c6f08aac52856,
+    0x686c5b53b9ba41da7487755508519a5f7f8363f8bd4f75749ca06fa69affe689,
+    0x92b0efb6bd35c8f7f9289d904664daefa54439a281f5d5ed7b26addedf08894c,
+]
+
+
 def on_curve(x, y):
     return 0 <= x < P and 0 <= y < P and (y * y - (x * x * x + A * x + Bc)) % P == 0
 
@@ -309,6 +328,30 @@ def search(ctx):
                                                               "note": "shared x-coordinate has a leading zero byte"}, repr(got)[:200])
             finally:
                 bec2format.register_PrivateEccKey(plug.PrivateEccKeyProxy)
+        # ephemeral public keys with special byte patterns (00 04 inside, leading zero bytes): the block must still be
+        # selector, 04, X, Y, 16 bytes and unwrap at the independent recipient
+        for e in PATTERN_EPHEMERALS:
+            class FixedPriv2(plug.PrivateEccKeyProxy):
+                @classmethod
+                def generate(cls):
+                    return cls(SigningKey.from_secret_exponent(e, NIST256p))
+            bec2format.register_PrivateEccKey(FixedPriv2)
+            try:
+                d = r.randrange(1, N_ORDER)
+                priv = plug.PrivateEccKeyProxy(SigningKey.from_secret_exponent(d, NIST256p))
+                key = C.gen_key(r)
+                sel = r.randrange(4)
+                ctx.case(("pattern-ephemeral", e, d, key))
+                blk = run_impl(lambda: InitEccAuthBlock(sel).pack(key, [EccEncryptor(sel, priv.public_key)]))
+                ex, ey = ec_mul(e, (GX, GY))
+                want_head = bytes([sel, 4]) + ex.to_bytes(32, "big") + ey.to_bytes(32, "big")
+                got = run_impl(indep_recipient, d, blk[1]) if blk[0] == "ok" else blk
+                if blk[0] != "ok" or len(blk[1]) != 82 or blk[1][:66] != want_head or got != ("ok", (sel, key)):
+                    ctx.fail("ecies-independent-recipient", {"d": hex(d), "ephemeral": hex(e), "sel": sel, "key": key,
+                                                              "note": "ephemeral public key with a special byte pattern"},
+                             "block %s; independent recipient: %s" % (blk[1].hex() if blk[0] == "ok" else blk, repr(got)[:120]))
+            finally:
+                bec2format.register_PrivateEccKey(plug.PrivateEccKeyProxy)
         # default recipients: observe the public key handed to ECDH through a recording plug-in
         seen = []
 
@@ -324,8 +367,9 @@ def search(ctx):
                     del seen[:]
                     ctx.case(("default", sel, len(seen)))
                     blk = run_impl(lambda: InitEccAuthBlock(sel).pack(C.gen_key(r), []))
-                    if blk[0] != "ok" or seen != [EE.DEFAULT_PUBLIC_KEYS[sel]] or blk[1][0] != sel:
-                        ctx.fail("default-recipient", {"sel": sel, "seen": [s.hex() for s in seen]}, repr(blk)[:120])
+                    if blk[0] != "ok" or seen != [bytes.fromhex(PUBLISHED_KEYS[sel])] or blk[1][0] != sel:
+                        ctx.fail("default-recipient", {"sel": sel, "seen": [s.hex() for s in seen]},
+                                 "ECDH peer is not the published key of selector %d: %s" % (sel, repr(blk)[:120]))
                     # "without an explicit recipient": key rings that hold encryptors, none of them an ECC encryptor
                     # for this selector (customer key, security code, ECC recipients of other selectors)
                     from bec2format.bec2file import SoftwareCustKeyEncryptor, ConfigSecurityCodeEncryptor
@@ -336,7 +380,7 @@ def search(ctx):
                     del seen[:]
                     ctx.case(("default-with-ring", sel, tuple(type(x).__name__ for x in ring)))
                     blk = run_impl(lambda: InitEccAuthBlock(sel).pack(C.gen_key(r), ring))
-                    if blk[0] != "ok" or seen != [EE.DEFAULT_PUBLIC_KEYS[sel]] or blk[1][0] != sel:
+                    if blk[0] != "ok" or seen != [bytes.fromhex(PUBLISHED_KEYS[sel])] or blk[1][0] != sel:
                         ctx.fail("default-recipient", {"sel": sel, "seen": [x.hex() for x in seen],
                                                        "ring": [type(x).__name__ + (":%d" % x.key_selector if hasattr(x, "key_selector") else "")
                                                                 for x in ring]},
@@ -345,7 +389,7 @@ def search(ctx):
                     s = io.StringIO()
                     del seen[:]
                     Bec2File(B.build({}, []), [InitEccAuthBlock(sel)], C.gen_key(r)).write_file(s, [])
-                    if seen != [EE.DEFAULT_PUBLIC_KEYS[sel]]:
+                    if seen != [bytes.fromhex(PUBLISHED_KEYS[sel])]:
                         ctx.fail("default-recipient", {"sel": sel, "via": "Bec2File.write_file"}, "")
         finally:
             bec2format.register_PrivateEccKey(plug.PrivateEccKeyProxy)
@@ -420,7 +464,7 @@ def replay(ctx, data):
                     for ring in rings:
                         del seen[:]
                         blk = run_impl(lambda: InitEccAuthBlock(d["sel"]).pack(bytes(16), ring))
-                        bad = blk[0] != "ok" or seen != [EccEncryptor.DEFAULT_PUBLIC_KEYS[d["sel"]]]
+                        bad = blk[0] != "ok" or seen != [bytes.fromhex(PUBLISHED_KEYS[d["sel"]])]
                         print(" key ring %r -> %s, ECDH peer is the published key: %s" % (
                             [type(x).__name__ for x in ring], blk[0] if blk[0] == "ok" else blk, not bad))
                         rc |= bad
